@@ -9,7 +9,7 @@
     The model is tied to the code by trace validation (props/c10.py, Workers/Checker.v). *)
 From Coq Require Import ZArith List Bool Arith.
 From Texel Require Import Workers.Workers Workers.WorkersLemmas Workers.WorkersInv
-  Workers.WorkersTheorems Workers.WorkersLive Workers.WorkersLiveProofs Workers.WorkersFair Workers.WorkersExamples
+  Workers.WorkersTheorems Workers.WorkersLive Workers.WorkersLiveProofs Workers.WorkersFair Workers.WorkersExamples Workers.WorkersMeasureProofs Workers.WorkersFairExample
   Workers.Checker Workers.WorkersRestart Workers.Race Workers.Access Workers.HandshakeProofs.
 Import ListNotations.
 
@@ -90,6 +90,16 @@ Theorem C10_stop_terminates : forall N parent, tree_ok N parent ->
   exists k, i <= k /\ master_idle (e k).
 Proof. exact stop_terminates. Qed.
 Print Assumptions C10_stop_terminates.
+
+(** non-vacuity of C10_stop_terminates: a weakly fair infinite execution (N = 2, chain) that
+    is in the stop phase at position 15 and idle again at position 30 *)
+Theorem C10_stop_terminates_example :
+  tree_ok 2 ex_parent /\
+  reach 2 ex_parent (ex_fair_exec 0) /\ execution 2 ex_parent ex_fair_exec /\
+  weakly_fair 2 ex_parent ex_fair_exec /\
+  mphase (pc (th (ex_fair_exec 15) 0)) = Some PhStop /\ master_idle (ex_fair_exec 30).
+Proof. split; [exact ex_tree | exact ex_fair_execution]. Qed.
+Print Assumptions C10_stop_terminates_example.
 
 (** the fairness assumption above is the constructive form of the textbook one *)
 Theorem C10_weak_fairness_form : forall N parent e, weakly_fair N parent e ->
